@@ -81,7 +81,7 @@ def tla_bool(b):
 def run_tlc(module, constants, invariants, properties=(), init="Init", nxt="Next",
             constraints=(), action_constraints=(), view=None, workers=8, timeout=900,
             simulate=None, depth=None, seed=None, env=None, on_export=None, coverage=False,
-            postcondition=None, keep_exports=True, extra_args=(), java_opts=None):
+            postcondition=None, keep_exports=True, extra_args=(), java_opts=None, spec=None):
     """simulate: None (exhaustive BFS) or number of behaviours (per run, workers forced to 1)"""
     d = scratch("pyspike_tlc_")
     res = TLCResult()
@@ -90,7 +90,7 @@ def run_tlc(module, constants, invariants, properties=(), init="Init", nxt="Next
     try:
         cfg = os.path.join(d, module + ".cfg")
         write_cfg(cfg, constants, invariants, properties, init, nxt, constraints,
-                  action_constraints, view, postcondition=postcondition)
+                  action_constraints, view, postcondition=postcondition, spec=spec)
         cmd = ["java", "-XX:+UseParallelGC", "-XX:ParallelGCThreads=4", "-Xmx8g", "-Xss16m"]
         if java_opts:
             cmd += list(java_opts)
